@@ -582,3 +582,21 @@ lp:
   %l = landingpad i32 cleanup
   ret void
 }
+;;; ATOM term/invoke-variadic
+declare i32 @printf(i8*, ...)
+declare void @vv(...)
+define i32 @f(i8* %s, i32 (i8*, ...)* %fp) personality i8* null {
+  %r = invoke i32 (i8*, ...) @printf(i8* %s, i32 1) to label %ok unwind label %lp
+ok:
+  invoke void (...) @vv(i32 %r) to label %ok2 unwind label %lp
+ok2:
+  %c = call i32 (i8*, ...) @printf(i8* %s)
+  %e = invoke i32 (i8*, ...) %fp(i8* %s) to label %ok3 unwind label %lp
+ok3:
+  %d = add i32 %r, %c
+  %d2 = add i32 %d, %e
+  ret i32 %d2
+lp:
+  %l = landingpad i32 cleanup
+  ret i32 0
+}
